@@ -9,7 +9,7 @@ for P in "$@"; do
     [ -f $W/$f ] && mkdir -p /verif/$(dirname $f) && cp $W/$f /verif/$f && echo "copied $f"
   done
   [ -d $W/corpus/$P ] && mkdir -p /verif/corpus/$P && cp -r $W/corpus/$P/. /verif/corpus/$P/ && echo "copied corpus/$P"
-  ls $W/fixes/$P-* 2>/dev/null | while read f; do cp $f /verif/fixes/ && echo "copied $f"; done
+  for f in $W/fixes/$P-*; do cp $f /verif/fixes/ && echo "copied $f"; done
 done
 # new model / lemma files (never overwrite existing ones silently: report)
 for d in Model Lemmas; do
